@@ -3,7 +3,7 @@
     place its enclosing grouping is used, what the public accessors of meta.Type / meta.Leafable
     return.  Everything below is evaluated by Coq. *)
 From Coq Require Import ZArith List Bool Strings.Byte.
-From YV Require Import Base.Verdict Typed.Model Typed.Spec.
+From YV Require Import Base.Verdict Typed.Model Typed.Spec Typed.FindId.
 Import ListNotations.
 Open Scope Z_scope.
 
@@ -12,7 +12,16 @@ Inductive observed :=
 | OError                            (* the load returned an error *)
 | OPanic.
 
-Inductive case := CLeaf (E : env) (l : leaf) (uses : nat) (obs : observed).
+(** what was observed for one text probed against the identityref type of the leaf:
+    meta.FindIdentity(Type.Base(), text) (the identity returned) and node.NewValue(Type, text)
+    (the label of the value, None = rejected) *)
+Inductive pobs :=
+| PObs (found : option iid) (value : option text)
+| PPanic.
+
+Inductive case :=
+| CLeaf (E : env) (l : leaf) (uses : nat) (obs : observed)
+| CFind (E : env) (l : leaf) (probes : list (text * pobs)).   (* the leaf is an identityref and loaded *)
 
 Fixpoint list_eqb {A} (eq : A -> A -> bool) (a b : list A) : bool :=
   match a, b with
@@ -87,7 +96,104 @@ Definition known (E : env) (l : leaf) : option nat :=
   | _ => None
   end.
 
+(** ** Which identities the identityref accepts (FindIdentity, node.NewValue) *)
+Definition pobs_eqb (a b : pobs) : bool :=
+  match a, b with
+  | PObs f1 v1, PObs f2 v2 => opt_eqb iid_eqb f1 f2 && opt_eqb text_eqb v1 v2
+  | PPanic, PPanic => true
+  | _, _ => false
+  end.
+
+(** the bases the compiled type of the leaf holds (model side) *)
+Definition model_bases (E : env) (l : leaf) : option (list iid) :=
+  match compile_uses true (leaf_fuel E l) E l 1 with
+  | Ok ((t, _, _) :: _) =>
+      if fmt_single (t_format t) =? FmtIdentityRef then Some (t_idents t) else None
+  | _ => None
+  end.
+
+Definition model_probe (mods : list modl) (ids : list iid) (name : text) : option pobs :=
+  match find_identity (find_fuel mods) mods ids name, ident_value (find_fuel mods) mods ids name with
+  | Found j, Some v => Some (PObs (Some j) v)
+  | NotFound, Some v => Some (PObs None v)
+  | _, _ => None
+  end.
+
+Definition corr_find (E : env) (l : leaf) (probes : list (text * pobs)) : bool :=
+  match model_bases E l with
+  | Some ids => forallb (fun p => match model_probe (e_mods E) ids (fst p) with
+                                  | Some m => pobs_eqb m (snd p)
+                                  | None => false
+                                  end) probes
+  | None => false
+  end.
+
+(** the oracle: RFC 7950 9.10.2, an identity is a valid value iff it is derived (directly or
+    indirectly, never itself) from every base; membership is decided by walking the base
+    statements upwards ([accepted_upward]), the opposite direction to the implementation's
+    search.  A value may carry the name of the identity's module in front of a colon. *)
+Fixpoint drop_to_colon (s : text) : option text :=
+  match s with
+  | [] => None
+  | c :: tl => if Byte.eqb c x3a then Some tl else drop_to_colon tl
+  end.
+Definition local_name (x : text) : text :=
+  match x with
+  | [] => []
+  | c :: _ => if Byte.eqb c x3a then x else match drop_to_colon x with Some r => r | None => x end
+  end.
+Definition named (n : text) (l : list iid) : bool := existsb (fun j => text_eqb (snd j) n) l.
+
+Definition spec_probe (mods : list modl) (bases : list iid) (p : text * pobs) : bool :=
+  let acc := accepted_upward mods bases in
+  match snd p with
+  | PPanic => false
+  | PObs fnd v =>
+      match fnd with
+      | Some j => mem_iid j acc && text_eqb (snd j) (fst p)
+      | None => negb (named (fst p) acc)
+      end
+      && match v with
+         | Some lab => text_eqb lab (local_name (fst p)) && named lab acc
+         | None => negb (named (local_name (fst p)) acc)
+         end
+  end.
+
+Definition otype_format (o : otype) : Z := match o with OType f _ _ _ _ _ _ _ _ _ _ => f end.
+Definition otype_bases (o : otype) : list iid := match o with OType _ _ _ _ _ _ _ _ b _ _ => b end.
+
+(** the bases RFC 7950 gives the leaf (spec side) *)
+Definition spec_bases (E : env) (l : leaf) : option (list iid) :=
+  match resolve (leaf_fuel E l) (e_mods E) (lf_pos l) (lf_type l) with
+  | Ok r => match effective_leaf E l r with
+            | Some (o, _, _) => if fmt_single (otype_format o) =? FmtIdentityRef then Some (otype_bases o) else None
+            | None => None
+            end
+  | _ => None
+  end.
+
+Definition spec_find (E : env) (l : leaf) (probes : list (text * pobs)) : bool :=
+  match spec_bases E l with
+  | Some bases => forallb (spec_probe (e_mods E) bases) probes
+  | None => false
+  end.
+
+(** region 5: the text probed is the name of one of the bases (FindIdentity tests the candidates
+    themselves, so the base is accepted as a value; it is not derived from itself) *)
+Definition base_named (bases : list iid) (probes : list (text * pobs)) : bool :=
+  existsb (fun p => named (fst p) bases || named (local_name (fst p)) bases) probes.
+
+Definition known_find (E : env) (l : leaf) (probes : list (text * pobs)) : option nat :=
+  match resolve (leaf_fuel E l) (e_mods E) (lf_pos l) (lf_type l), spec_bases E l with
+  | Ok r, Some bases =>
+      if multibase_region r then Some 2%nat
+      else if base_named bases probes then Some 5%nat
+      else None
+  | _, _ => None
+  end.
+
 Definition classify (c : case) : verdict :=
   match c with
   | CLeaf E l n obs => classify_gen (corr E l n obs) (spec_obs E l n obs) (known E l)
+  | CFind E l ps => classify_gen (corr_find E l ps) (spec_find E l ps) (known_find E l ps)
   end.
